@@ -13,6 +13,8 @@
 //	              -mode schemas -layouts writes the "project layout" projects c17l*
 //	              -mode schemas -inputres writes the "input objects with field resolvers" projects c17i* (inputres.go)
 //	              -mode schemas -schemalocs writes the "where the schema files live" projects c17s* (schemaloc.go)
+//	              -mode schemas -filekinds writes the "what a schema file contains" projects c17f* (filekinds.go)
+//	              -mode schemas -dirargs writes the "how directive arguments are given" projects c17a* (dirargs.go)
 //	-mode decls   go/parser over the files generated in -dir: declared identifiers by scope, and the schema
 //	              summary line for the Lean model's `emitted`
 //
@@ -53,6 +55,10 @@ func main() {
 	inputCorpus := flag.String("inputcorpus", "", "directed input-field-resolver corpus (schemas, with -inputres)")
 	withSchemaLocs := flag.Bool("schemalocs", false, "schemas: also write the schema-location projects (c17s*)")
 	locCorpus := flag.String("loccorpus", "", "directed schema-location corpus (schemas, with -schemalocs)")
+	withFileKinds := flag.Bool("filekinds", false, "schemas: also write the file-contents projects (c17f*)")
+	fileCorpus := flag.String("filecorpus", "", "directed file-contents corpus (schemas, with -filekinds)")
+	withDirArgs := flag.Bool("dirargs", false, "schemas: also write the directive-argument projects (c17a*)")
+	dirArgCorpus := flag.String("dirargcorpus", "", "directed directive-argument corpus (schemas, with -dirargs)")
 	flag.Parse()
 	defer out.Flush()
 	switch *mode {
@@ -74,6 +80,12 @@ func main() {
 		}
 		if *withSchemaLocs {
 			writeSchemaLocs(*outDir, *seed, *tier, *locCorpus)
+		}
+		if *withDirArgs {
+			writeDirArgs(*outDir, *seed, *tier, *dirArgCorpus)
+		}
+		if *withFileKinds {
+			writeFileKinds(*outDir, *seed, *tier, *fileCorpus)
 		}
 	case "typerefs":
 		runTypeRefs(*tier, *seed)
